@@ -7,8 +7,11 @@ package c06
 // does not depend on the public key at all.
 
 import (
+	"bytes"
 	"fmt"
 	"math/big"
+
+	"github.com/emmansun/gmsm/sm2"
 
 	"github.com/emmansun/gmsm/smx509"
 
@@ -61,4 +64,112 @@ func soundDegenerateCase(t *engine.T, ki int) {
 	if ki == 0 {
 		t.Sample(map[string]any{"part": "soundness (degenerate branches on a chosen digest)", "key": key.Name, "families": []string{"t=r+s=0 mod n", "[s]G+[t]P=infinity"}})
 	}
+}
+
+// ---------------------------------------------------------------------------------------------
+// Retry paths of the signing procedure (steps A5/A6: r = 0, r + k = n, s = 0 -> "go back to A3") reached with a
+// chosen digest and a scripted nonce stream: the first nonce k1 is made to hit the retry condition, the second
+// nonce k2 must then be used on untouched state. Oracle: the signature equals the reference signature for k2.
+
+func soundRetryCase(t *engine.T, ki int) {
+	c := ecref.SM2()
+	n := c.N
+	g := GTable()
+	key := Keys()[ki]
+	priv := LibPriv(key.D, key.Pub)
+	dInv := new(big.Int).ModInverse(key.D, n)
+	for ci, k1 := range []*big.Int{big.NewInt(7), HashChain("verif/c06/retry-k1", ki+1), new(big.Int).Sub(n, big.NewInt(3))} {
+		x1 := g.Mul(k1).X
+		causes := []struct {
+			name string
+			e    *big.Int
+		}{
+			{"s=0", new(big.Int).Mod(new(big.Int).Sub(new(big.Int).Mul(k1, dInv), x1), n)}, // r = k1*d^-1  =>  k1 - r*d = 0
+			{"r=0", new(big.Int).Mod(new(big.Int).Neg(x1), n)},
+			{"r+k=n", new(big.Int).Mod(new(big.Int).Sub(new(big.Int).Sub(n, k1), x1), n)},
+		}
+		for _, cause := range causes {
+			eb := ecref.Bytes32(cause.e)
+			if _, _, ok := FastSignWithK(c, g, key.D, k1, eb); ok {
+				t.Fail("HARNESS/retry-construction", "cause %s does not make the reference retry", cause.name)
+				continue
+			}
+			k2 := HashChain("verif/c06/retry-k2", ki*7+ci+1)
+			r2, s2, ok := FastSignWithK(c, g, key.D, k2, eb)
+			if !ok {
+				continue
+			}
+			want := ecref.EncodeDERSig(r2, s2)
+			var sig []byte
+			var err error
+			rd := engine.NewScriptReader(ecref.Bytes32(k1), ecref.Bytes32(k2))
+			if t.Guard("sign/retry", func() { sig, err = sm2.SignASN1(rd, priv, eb, nil) }) {
+				continue
+			}
+			t.Eval(1)
+			if err != nil {
+				t.Fail("sign/retry/"+cause.name+"/error", "key %s: SignASN1 on the digest that makes the first nonce hit %s: %v", key.Name, cause.name, err)
+				continue
+			}
+			if !bytes.Equal(sig, want) {
+				t.Fail("sign/retry/"+cause.name+"/signature-differs-from-reference-for-second-nonce", "key %s k1=%x (first pass: %s) k2=%x: got %x want %x; the returned signature %s", key.Name, k1, cause.name, k2, sig, want,
+					map[bool]string{true: "still verifies", false: "does NOT verify"}[sm2.VerifyASN1(LibPub(key.Pub), eb, sig)])
+			}
+			t.Nontrivial(fmt.Sprintf("sign-retry/%s/%d/%s", key.Name, ci, cause.name))
+		}
+	}
+	if ki == 0 {
+		t.Sample(map[string]any{"part": "completeness on the retry paths (chosen digest, scripted nonces)", "causes": []string{"s=0", "r=0", "r+k=n"}})
+	}
+}
+
+// ---------------------------------------------------------------------------------------------
+// Valid signatures whose point [s]G+[t]P has an x-coordinate in [n, p) (a band of width ~2^128 that honest random
+// signatures never hit): constructed without a discrete logarithm — take a curve point R with x0 = n+i, choose s and
+// t, set r = t - s, e = r - x0 mod n and the PUBLIC key P = t^-1 (R - [s]G). All verification entry points must accept.
+
+func soundLargeXCase(t *engine.T) {
+	c := ecref.SM2()
+	n := c.N
+	g := GTable()
+	found := 0
+	for i := int64(0); found < 6 && i < 400; i++ {
+		x0 := new(big.Int).Add(n, big.NewInt(i))
+		if x0.Cmp(c.P) >= 0 {
+			break
+		}
+		R, ok := c.LiftX(x0, uint(i&1))
+		if !ok {
+			continue
+		}
+		found++
+		s := HashChain("verif/c06/largex-s", int(i)+1)
+		tt := HashChain("verif/c06/largex-t", int(i)+1)
+		r := new(big.Int).Mod(new(big.Int).Sub(tt, s), n)
+		if r.Sign() == 0 {
+			continue
+		}
+		tInv := new(big.Int).ModInverse(tt, n)
+		P := c.Mul(tInv, c.Add(R, c.Neg(g.Mul(s))))
+		if P.Inf {
+			continue
+		}
+		e := new(big.Int).Mod(new(big.Int).Sub(r, x0), n)
+		key := Key{Name: fmt.Sprintf("constructed(x0=n+%d)", i), Pub: P}
+		v := digestCtx(key, e)
+		sig := sigOf(r, s)
+		if a, _, _, _ := v.refAccept(sig); !a {
+			t.Fail("HARNESS/largex-construction", "the reference rejects the constructed signature for x0=n+%d", i)
+			continue
+		}
+		v.check(t, "constructed/x-coordinate-in-[n,p)", fmt.Sprintf("x([s]G+[t]P) = n+%d", i), sig)
+		// negative control: the same (r,s) on another digest
+		v2 := digestCtx(key, new(big.Int).Add(e, big.NewInt(1)))
+		v2.check(t, "constructed/x-coordinate-in-[n,p)/other-digest", fmt.Sprintf("x0=n+%d, e+1", i), sig)
+		t.Nontrivial(fmt.Sprintf("largex/%d", i))
+	}
+	if found == 0 {
+		t.Fail("HARNESS/largex-no-point", "no curve point with x in [n, n+400)")
+	}
+	t.Sample(map[string]any{"part": "soundness/completeness of verification for x([s]G+[t]P) in [n,p)", "constructed_points": found})
 }
